@@ -167,10 +167,19 @@ class _FakeProc:
         return []
 
 
-def run_schedule(samples, sched_roles, workdir: Path):
-    """sched_roles: list of 'W' / 'R'.  Returns (reader results, model schedule string, writer effect trace, proto)"""
+OLD_PEAK = 7.25   # what an earlier run in the same directory left in max-rss.txt
+OLD_TMP = 4096.5   # ... or, killed between write and rename, in max-rss.txt.tmp
+
+
+def run_schedule(samples, sched_roles, workdir: Path, pre: str = ""):
+    """sched_roles: list of 'W' / 'R'.  Returns (reader results, model schedule string, writer effect trace, proto).
+    `pre`: leftovers of an earlier run present when the monitor starts ("peak", "tmp", "peak+tmp")"""
     for p in workdir.glob("*"):
         p.unlink()
+    if "peak" in pre:
+        (workdir / "max-rss.txt").write_text(f"{OLD_PEAK}\n")
+    if "tmp" in pre:
+        (workdir / "max-rss.txt.tmp").write_text(f"{OLD_TMP}\n")
     real_open, real_os, real_time, real_psutil = getattr(mem, "open", None), mem.os, mem.time, mem.psutil
 
     class TimeProxy:
@@ -291,10 +300,19 @@ def suite_monitor(tier: str, seed: int, mult: int) -> SuiteResult:
             samples = [rng.randint(1, 9) for _ in range(k)]
             roles = [rng.choice("WWR") for _ in range(rng.randint(4, 30))]
             scheds.append((samples, roles))
-        for samples, roles in scheds:
-            results, msched, trace, proto = run_schedule(samples, roles, work)
-            mout = d.cmd(f"MON proto={proto} samples={show_nats(',', samples)} sched={msched}")
-            mres = canon_model(mout, samples)
+        for si, (samples, roles) in enumerate(scheds):
+            # every fourth schedule starts in a directory an earlier run has used (its peak file and / or a temporary
+            # file it was killed over are still there); the model has no such state: oracle only
+            pre = ["peak", "tmp", "peak+tmp"][(si // 4) % 3] if si % 4 == 3 else ""
+            if pre and roles and roles[0] != "R":
+                roles = ["R"] * 3 + list(roles)      # a reader right after the monitor has started
+            results, msched, trace, proto = run_schedule(samples, roles, work, pre)
+            cnt["pre_" + (pre or "empty")] = cnt.get("pre_" + (pre or "empty"), 0) + 1
+            if pre:
+                mout, mres = "(no model run: pre-populated directory)", None
+            else:
+                mout = d.cmd(f"MON proto={proto} samples={show_nats(',', samples)} sched={msched}")
+                mres = canon_model(mout, samples)
             res.evaluations += 1
             res.traces += 1
             cnt["schedules"] += 1
@@ -306,7 +324,7 @@ def suite_monitor(tier: str, seed: int, mult: int) -> SuiteResult:
                 seen.add(key)
                 res.nontrivial += 1
             impl_c = ["error" if r.startswith("error:") else r for r in results]
-            if impl_c != mres and res.disagreement is None:
+            if mres is not None and impl_c != mres and res.disagreement is None:
                 res.disagreement = {"what": "reader results", "samples": samples, "roles": "".join(roles), "proto": proto,
                                     "model_sched": msched, "model": mout, "impl": results, "writer_trace": trace}
             # oracle: never an error, only complete values that were written so far, never decreasing
@@ -321,10 +339,12 @@ def suite_monitor(tier: str, seed: int, mult: int) -> SuiteResult:
                 if r.startswith("error:"):
                     res.failures.append({"signature": f"C20:reader-raised-{r[6:]}-while-the-monitor-was-updating",
                                          "what": f"get_peak_memory_gib raised {r[6:]} under schedule {''.join(roles)} ({proto} protocol)",
-                                         "case": {"samples": samples, "roles": "".join(roles), "writer_trace": trace}})
+                                         "case": {"samples": samples, "roles": "".join(roles), "writer_trace": trace, "directory_before": pre or "empty"}})
                     break
                 if r != "none":
                     v = float(r)
+                    if "peak" in pre and v == OLD_PEAK and last is None:
+                        continue      # the complete value the earlier run left: a correctly parsed number of that run
                     if v not in maxima:
                         res.failures.append({"signature": "C20:reader-returned-a-value-never-written",
                                              "what": f"{v} not among {maxima}", "case": {"samples": samples, "roles": "".join(roles)}})
